@@ -224,6 +224,10 @@ def evalD (env : Env) (targs : List Int) : Prog → MD → Except Err MD
     match d.m.sc.makeRng s with
     | .error e => .error e
     | .ok (k, sc) => .ok { d with m := { d.m with keys := d.m.keys ++ [k], sc := sc } }
+  | .rngAt p s, d =>
+    match d.m.sc.makeRngAt p s with
+    | .error e => .error e
+    | .ok (k, sc) => .ok { d with m := { d.m with keys := d.m.keys ++ [k], sc := sc } }
 
 def dRets (env : Env) (targs : List Int) (regs tregs : List Int) : List Expr → Option (List (Int × Int))
   | [] => some []
